@@ -24,10 +24,29 @@ def run(tier, v, wd, replay=None):
                 out.write(f.read())
     repo = vlib.scratch_repo(wd, "real")
     run_vectors(v, wd, repo, "./control/", "TestVerifC10", infile, timeout=3000)
+    # a full kernel table: failed syncs and retries (Cap = 2)
+    r = vlib.tlc(wd, "DomainTracker", "DomainTracker_cap.cfg", timeout=1500)
+    v.add_tlc(r)
+    if r.violated:
+        raise vlib.Infra("DomainTracker.tla (full table) violates %s in the model" % r.violated)
+    r = vlib.tlc(wd, "DomainTracker", "DomainTracker_cap_first.cfg", timeout=1500, workers=1)
+    if r.violated != "MirrorWhenSynced":
+        raise vlib.Infra("DomainTracker.tla with bookkeeping before the kernel writes no longer violates MirrorWhenSynced: vacuous model")
+    capfile = os.path.join(wd.path, "c10cap.ndjson")
+    r = vlib.tlc(wd, "DomainTracker", "DomainTracker_cap_gen.cfg", emit_to=capfile + ".all", timeout=1500)
+    v.add_tlc(r)
+    keep = 6 if tier == "quick" else 1
+    with open(capfile, "w") as out:
+        for i, line in enumerate(sorted(open(capfile + ".all").read().splitlines())):
+            if (i + vlib.seed()) % keep == 0:
+                out.write(line + "\n")
+    os.remove(capfile + ".all")
+    run_vectors(v, wd, repo, "./control/", "TestVerifC10Cap", capfile, timeout=3000, outname="out-cap.json")
     v.coverage["exhaustive"] = True
     v.coverage["explanation"] = ("TLC: all 32768 cache configurations of 3 owners x 2 addresses (+unspecified) x 2-bit bitmaps reachable in <=6 events keep Mirror; "
                                  "every history of length 4 over 2 owners x bitmaps {b0},{b1} x address sets {},{1},{1,2} (38416) and random histories of length 14 "
                                  "over 3 owners / 3 addresses / 3 bits are replayed through BatchUpdateDomainRouting/BatchRemoveDomainRouting on a real kernel "
                                  "domain_routing_map, which is read back and compared with the spec's table after every step")
     v.assumptions += ["events enter at controlPlaneCore.BatchUpdateDomainRouting / BatchRemoveDomainRouting (the DNS controller's callbacks call these)",
-                      "abstract bits b0,b1,b2 are placed at bitmap indices 0, 33, 1023"]
+                      "abstract bits b0,b1,b2 are placed at bitmap indices 0, 33, 1023",
+                      "full table: a stand-alone kernel hash map with the layout of domain_routing_map and 2 entries; only failures of single-entry updates are generated (a batch failing half-way leaves a kernel-dependent part written)"]
